@@ -73,6 +73,7 @@ type rawClient struct {
 	bad      string
 	accepted bool
 	dead     bool // reported CLOSED already
+	paused   bool // the reader goroutine stops draining the connection (a client that has stopped reading)
 }
 
 func newRawClient(id int, conn net.Conn) *rawClient {
@@ -86,6 +87,11 @@ func (c *rawClient) reader() {
 	var buf []byte
 	tmp := make([]byte, 65536)
 	for {
+		c.mu.Lock()
+		for c.paused {
+			c.cond.Wait()
+		}
+		c.mu.Unlock()
 		n, err := c.conn.Read(tmp)
 		c.mu.Lock()
 		if n > 0 {
@@ -120,6 +126,13 @@ func (c *rawClient) reader() {
 		c.cond.Broadcast()
 		c.mu.Unlock()
 	}
+}
+
+func (c *rawClient) setPaused(p bool) {
+	c.mu.Lock()
+	c.paused = p
+	c.cond.Broadcast()
+	c.mu.Unlock()
 }
 
 // waitUntil waits for pred (evaluated under the lock) or timeout.
